@@ -331,6 +331,18 @@ Definition cmd_a (mr : nat) (to : Z) (c : cid) : cmdinfo :=
 Definition silent (n : nat) : wplan := wplan0.
 Definition slow (n : nat) : wplan := {| w_lat := 1000000; w_fail := false; w_echo := None; w_rply := None |}.
 
+(* the back-off is the PROTOCOL's, not the command's: five single-attempt commands 10 s apart, nothing answers -- they are given up after
+   0.5, 1, 2, 4 and 4 s (the wait doubles after each unanswered attempt, whichever command it belonged to, up to 8 x) *)
+Lemma backoff_across_commands :
+  fst (fst (simulate (cmd_a 0 20000000) silent false 5000
+              [(0, ConnMade); (15625, Call 0%nat); (10015625, Call 1%nat); (20015625, Call 2%nat); (30015625, Call 3%nat); (40015625, Call 4%nat)])) =
+  [Write 15625 0%nat; Done (15625 + ECHO_TO) 0%nat ErrSendFailed;
+   Write 10015625 1%nat; Done (10015625 + 2 * ECHO_TO) 1%nat ErrSendFailed;
+   Write 20015625 2%nat; Done (20015625 + 4 * ECHO_TO) 2%nat ErrSendFailed;
+   Write 30015625 3%nat; Done (30015625 + 8 * ECHO_TO) 3%nat ErrSendFailed;
+   Write 40015625 4%nat; Done (40015625 + 8 * ECHO_TO) 4%nat ErrSendFailed].
+Proof. vm_compute. reflexivity. Qed.
+
 Definition is_crash (o : obs) : bool := match o with LoopExn _ _ => true | _ => false end.
 Definition write_times (c : cid) (tr : list obs) : list Z :=
   flat_map (fun o => match o with Write t c' => if Nat.eqb c c' then [t] else [] | _ => [] end) tr.
